@@ -264,6 +264,39 @@ def run_app(sc, choices=None, world_hook=None):
                     w.probe("closer_exception_" + exc_name(e))
 
             closer_thread = seams.SimThread(target=close_later, name="closer")
+        # 'sender': an application thread that sends on the connection while the loop runs; the peer's window is closed for
+        # 'block' ticks (None: for good) from the moment it starts, so the thread sits inside send() holding the send lock
+        producer_thread = None
+        sender = sc.get("sender")
+        if sender is not None:
+            if not 0 <= int(sender.get("at", 0)) <= 200 * S or not 0 <= int(sender.get("len", 10)) <= 100000 or \
+                    (sender.get("block") is not None and not 0 < int(sender["block"]) <= 400 * S):
+                raise InvalidScenario("sender")
+
+            def produce():
+                w.k.wait(lambda: app.sock is not None and getattr(app.sock, "connected", False) and app.sock.sock is not None,
+                         None, "producer_waits_for_connection")
+                w.k.sleep(int(sender.get("at", 0)))
+                wsobj = app.sock
+                sk = wsobj.sock if wsobj is not None else None
+                if sk is None:
+                    return
+                ss = sk._sim_sock() if hasattr(sk, "_sim_sock") else sk
+                d = sender.get("block")
+                ss.unwritable_until = w.k.now + (int(d) if d is not None else 10 ** 15)
+                if d is not None:
+                    w.k.after(int(d), lambda: None)
+                w.k.ev("producer_send", d)
+                w.probe("application_thread_in_send")
+                try:
+                    wsobj.send("x" * int(sender.get("len", 10)))
+                    w.k.ev("producer_done")
+                except SimAbort:
+                    raise
+                except BaseException as e:  # noqa
+                    w.k.ev("producer_exc", exc_name(e))
+
+            producer_thread = seams.SimThread(target=produce, name="producer")
         nruns = int(sc.get("runs", 1))
         for ri in range(nruns):
             run = AppRun()
@@ -286,6 +319,8 @@ def run_app(sc, choices=None, world_hook=None):
                     w.k.start_tracing()
                 if closer_thread is not None and ri == 0:
                     closer_thread.start()
+                if producer_thread is not None and ri == 0:
+                    producer_thread.start()
                 if world_hook:
                     world_hook(w, app, ri)
                 if rel is not None:
@@ -307,7 +342,7 @@ def run_app(sc, choices=None, world_hook=None):
                 except SimAbort:
                     run.aborted = w.k.abort_reason
             run.open_sockets_at_return = [s.fd for s in w.net.sockets if not s.closed]
-            run.live_threads_at_return = [t.name for t in w.lib_threads if t.is_alive() and t is not closer_thread]
+            run.live_threads_at_return = [t.name for t in w.lib_threads if t.is_alive() and t is not closer_thread and t is not producer_thread]
             run.sock_attr_none = app.sock is None
             if run.aborted:
                 break
